@@ -375,4 +375,30 @@ example :
               clk := { SysClock.init with epoch := 1 } } [.setOffset 5000000] ∧
     s3.pll.mode = 1 ∧ s3.pll.epoch = 1 ∧ s3.clk.epoch = 1 := by decide +kernel
 
+/-! ### pins: the methods are what the model transcribes (re-read from driver/clocks/sysclk_linux.go
+on every run by harness/extract/x_c19.go) -/
+
+open ScionTime.Gen.Adjustments in
+/-- `Step`: no `return`, exactly one write of `c.epoch` — the unconditional top-level `c.epoch++`
+    after the single top-level `setOffset` call; statement for statement what `SysClock.step` is. -/
+theorem C19_pin_sysclk_step :
+    sysclk_step_stmts = SysClock.stepSource ∧ sysclk_step_returns = 0 ∧ sysclk_step_epochWrites = 1 ∧
+    sysclk_step_setOffsetCalls = 1 ∧ sysclk_step_epochIncTopLevel = true ∧
+    sysclk_step_setOffsetBeforeEpochInc = true := ⟨rfl, by decide⟩
+
+open ScionTime.Gen.Adjustments in
+/-- `Step` is the only function of the file that writes `c.epoch`; `c.adjustment` is written by
+    `Step` (cleared) and `Adjust` (cleared, then set) and by nothing else — in particular not by the
+    expiry goroutine. -/
+theorem C19_pin_sysclk_writers :
+    sysclk_epochWriters = ["Step"] ∧ sysclk_adjustmentWriters = ["Step", "Adjust", "Adjust"] := by decide
+
+open ScionTime.Gen.Adjustments in
+theorem C19_pin_sysclk_adjust :
+    sysclk_adjust_stmts = SysClock.adjustSource ∧ sysclk_adjust_goroutine = SysClock.goroutineSource := ⟨rfl, rfl⟩
+
+open ScionTime.Gen.Adjustments in
+theorem C19_pin_sysclk_epoch_sleep :
+    sysclk_epoch_stmts = SysClock.epochSource ∧ sysclk_sleep_stmts = SysClock.sleepSource := ⟨rfl, rfl⟩
+
 end ScionTime.Props.C19
